@@ -250,7 +250,7 @@ func actorPush(s *scenario) {
 
 var actors = map[string]func(*scenario){
 	"push": actorPush,
-	"vm": actorVM, "vm2": actorVM2, "gc": actorGc, "reload": actorReload,
+	"vm":   actorVM, "vm2": actorVM2, "gc": actorGc, "reload": actorReload,
 	"prom": actorProm, "varz": actorVarz, "graphite": actorGraphite, "json": actorJSON,
 }
 
@@ -312,7 +312,11 @@ func race() {
 			return err
 		}
 		for it := 0; it < c.Iters; it++ {
-			s, cancel := newScenario(seed*1000003+int64(n)*977+int64(it), 40)
+			ops := 40
+			if c.Hammer { // long overlapping runs: removals by `del` lines against removals by Gc (limit eviction)
+				ops = 6000
+			}
+			s, cancel := newScenario(seed*1000003+int64(n)*977+int64(it), ops)
 			// a few label values exist before the actors start
 			v := newVM(s)
 			for i := 0; i < 5; i++ {
@@ -334,6 +338,35 @@ func race() {
 			}
 			close(start)
 			wg.Wait()
+			// at quiescence every metric is a map again: the slice and the index name the same label values, once each
+			// (every critical section of Metric.tla preserves IndexOK; an operation split over two critical sections
+			// does not, and no race report would say so)
+			seen := map[*metrics.Metric]bool{}
+			var all []*metrics.Metric
+			for _, m := range s.obj.Metrics {
+				all = append(all, m)
+			}
+			_ = s.store.Range(func(m *metrics.Metric) error { all = append(all, m); return nil })
+			for _, m := range all {
+				if seen[m] {
+					continue
+				}
+				seen[m] = true
+				pos := metrics.VerifIndexPositions(m)
+				m.RLock()
+				n := len(m.LabelValues)
+				m.RUnlock()
+				used := map[int]bool{}
+				for k, p := range pos {
+					if p < 0 || used[p] {
+						noteFault("index", fmt.Errorf("after %v: metric %s: index entry %q points %s", c.Group, m.Name, k, map[bool]string{true: "at a slot another entry has", false: "outside the slice"}[p >= 0]))
+					}
+					used[p] = true
+				}
+				if len(pos) != n {
+					noteFault("index", fmt.Errorf("after %v: metric %s: %d label values in the slice, %d in the index", c.Group, m.Name, n, len(pos)))
+				}
+			}
 			cancel()
 		}
 		vh.Out(map[string]any{"group": c.Group, "iters": c.Iters})
